@@ -975,3 +975,73 @@ Proof.
   destruct (parse_eid s) as [i|] eqn:E; cbn; constructor; try apply IH; unfold reset_step_spec; rewrite E; [|reflexivity].
   split; [reflexivity|]. split; [|reflexivity]. apply parse_print_eid. eapply parse_eid_fields_ok; eauto.
 Qed.
+
+(* ---- the setters of the object: SetX / SetY / SetZ / SetZoom (and ResetExtendedSpatialID) applied to one object as a script;
+        each writes exactly its own field(s) ---- *)
+Inductive setter := SX (x : Z) | SY (y : Z) | SZ (z : Z) | SZoom (h v : Z) | SReset (s : string).
+Definition apply_setter (st : eid) (c : setter) : eid :=
+  match c with
+  | SX x => {| eh := eh st; ex := x; ey := ey st; ev := ev st; ef := ef st |}
+  | SY y => {| eh := eh st; ex := ex st; ey := y; ev := ev st; ef := ef st |}
+  | SZ z => {| eh := eh st; ex := ex st; ey := ey st; ev := ev st; ef := z |}
+  | SZoom h v => {| eh := h; ex := ex st; ey := ey st; ev := v; ef := ef st |}
+  | SReset s => match parse_eid s with Some i => i | None => st end
+  end.
+Definition setter_err (c : setter) : bool := match c with SReset s => match parse_eid s with Some _ => false | None => true end | _ => false end.
+Fixpoint run_setters (st : eid) (l : list setter) : list (bool * eid) :=
+  match l with [] => [] | c :: r => let st' := apply_setter st c in (setter_err c, st') :: run_setters st' r end.
+
+(* each field equals the last value set for it; the other fields are unchanged *)
+Theorem setter_fields st x y z h v :
+  apply_setter st (SX x) = mk (eh st) x (ey st) (ev st) (ef st) /\ apply_setter st (SY y) = mk (eh st) (ex st) y (ev st) (ef st) /\
+  apply_setter st (SZ z) = mk (eh st) (ex st) (ey st) (ev st) z /\ apply_setter st (SZoom h v) = mk h (ex st) (ey st) v (ef st).
+Proof. repeat split. Qed.
+(* setters of distinct fields commute *)
+Definition setter_field (c : setter) : nat := match c with SX _ => 1 | SY _ => 2 | SZ _ => 3 | SZoom _ _ => 0 | SReset _ => 4 end%nat.
+Theorem setters_commute st c d : setter_field c <> 4%nat -> setter_field d <> 4%nat -> setter_field c <> setter_field d ->
+  apply_setter (apply_setter st c) d = apply_setter (apply_setter st d) c.
+Proof. destruct c, d; cbn; intros; try reflexivity; congruence. Qed.
+(* after the four setters, in any order, ID() prints the five set values and FieldParams() returns them, whatever the object held before *)
+Theorem ID_after_setters st h x y v z :
+  let o := apply_setter (apply_setter (apply_setter (apply_setter st (SZ z)) (SY y)) (SX x)) (SZoom h v) in
+  o = mk h x y v z /\ print_eid o = join [print h; print x; print y; print v; print z] /\ field_params o = [h; x; y; v; z].
+Proof. cbv zeta. repeat split. Qed.
+
+(* observed per step: (error?, ID(), FieldParams(), [HZoom(); X(); Y(); VZoom(); Z()]) *)
+Definition setter_step_spec (o : bool * eid) (obs : bool * string * list Z * list Z) : Prop :=
+  let '(e, id, fp, acc) := obs in
+  e = fst o /\ parse_eid id = Some (snd o) /\ fp = field_params (snd o) /\ acc = field_params (snd o).
+Definition check_setter_step (o : bool * eid) (obs : bool * string * list Z * list Z) : bool :=
+  let '(e, id, fp, acc) := obs in
+  Bool.eqb e (fst o) && match parse_eid id with Some j => eid_eqb j (snd o) | None => false end &&
+  list_eqb Z.eqb fp (field_params (snd o)) && list_eqb Z.eqb acc (field_params (snd o)).
+Definition check_setters (l : list setter) (obs : list (bool * string * list Z * list Z)) : bool :=
+  forall2b check_setter_step (run_setters zero_eid l) obs.
+Theorem check_setters_sound l obs : check_setters l obs = true <-> Forall2 setter_step_spec (run_setters zero_eid l) obs.
+Proof.
+  apply forall2b_spec. intros [e0 st] [[[e id] fp] acc]. unfold check_setter_step, setter_step_spec. cbn [fst snd].
+  rewrite !andb_true_iff, !Zlist_eqb_spec, Bool.eqb_true_iff.
+  destruct (parse_eid id) as [j|]; [|split; [intros [[[_ H] _] _]; discriminate|intros (_ & H & _); discriminate]].
+  destruct (eid_eqb_spec j st) as [->|N]; split.
+  - tauto.
+  - tauto.
+  - intros [[[_ H] _] _]. discriminate.
+  - intros (_ & H & _). congruence.
+Qed.
+Definition all_fields_ok (l : list setter) : Prop :=
+  Forall (fun c => match c with SX a | SY a | SZ a => int64_ok a = true | SZoom h v => int64_ok h = true /\ int64_ok v = true | SReset _ => True end) l.
+Theorem setters_model_spec l : all_fields_ok l ->
+  Forall2 setter_step_spec (run_setters zero_eid l)
+          (map (fun o => (fst o, print_eid (snd o), field_params (snd o), field_params (snd o))) (run_setters zero_eid l)).
+Proof.
+  assert (G : forall st, fields_ok st = true -> all_fields_ok l ->
+    Forall2 setter_step_spec (run_setters st l) (map (fun o => (fst o, print_eid (snd o), field_params (snd o), field_params (snd o))) (run_setters st l))).
+  { induction l as [|c r IH]; intros st Hst Hl; cbn; [constructor|]. inversion Hl as [|? ? Hc Hr]; subst.
+    assert (Hst' : fields_ok (apply_setter st c) = true).
+    { unfold fields_ok in *. rewrite !andb_true_iff in Hst. destruct Hst as ((((H1 & H2) & H3) & H4) & H5).
+      destruct c; cbn [apply_setter eh ex ey ev ef]; try (now rewrite ?H1, ?H2, ?H3, ?H4, ?H5, ?Hc).
+      - destruct Hc as [Ha Hb]. now rewrite Ha, Hb, H2, H3, H5.
+      - destruct (parse_eid s) as [i|] eqn:E; [exact (parse_eid_fields_ok s i E)|]. now rewrite H1, H2, H3, H4, H5. }
+    constructor; [|now apply IH]. unfold setter_step_spec. cbn [fst snd]. repeat split. now apply parse_print_eid. }
+  intros H. apply G; [reflexivity|exact H].
+Qed.
